@@ -772,6 +772,7 @@ class _Gen:
         self.ops = []
         self.worlds = {}  # k -> (struct_seed, value_seed, spec_cfg_name)
         self.next_h = 0
+        self.last_spec = {}
         self.saved = {}  # path -> audio dir used (gen-side guess)
         self.loaded = []  # (h, node, audio)
 
@@ -825,6 +826,26 @@ class _Gen:
             value_seed = 0
         spec_cfg = self.cfg["small_spec"] if small else self.cfg["spec"]
         spec = specs.gen_world(struct_seed, value_seed, spec_cfg)
+        previous = self.last_spec.get(k)
+        if edit and previous is not None:
+            if self.rng.random() < 0.5:
+                # the collections keep their own identity (uuid and creation
+                # time) and only their content changes
+                for kind, root in spec["roots"].items():
+                    old = previous["roots"][kind]
+                    root["uuid"] = old["uuid"]
+                    if "created_on" in old:
+                        root["created_on"] = old["created_on"]
+            if self.rng.random() < 0.4:
+                # ... and membership changes too (an annotated clip more or
+                # less), so what is reachable from the collection changes
+                for root in spec["roots"].values():
+                    for key in ("recordings", "clip_annotations",
+                                "clip_predictions", "clip_evaluations"):
+                        members = root.get(key)
+                        if members and len(members) > 1 and self.rng.random() < 0.7:
+                            del members[self.rng.randrange(len(members))]
+        self.last_spec[k] = spec
         self.worlds[k] = (struct_seed, value_seed, small)
         self.emit({"op": "world", "k": k, "spec": spec})
         return spec
@@ -1009,6 +1030,26 @@ class _Gen:
                   audio=audio, fault=None)
         self.load(p, audio=audio)
 
+    def pat_crash_then_save(self):
+        """A save is killed (or fails) half-way; later a different, usually
+        smaller or edited, collection is saved to the same path and loaded."""
+        k = self.ensure_world(0)
+        p, n = self.path(), self.node()
+        audio = self.audio_for_save(k)
+        root = self.root()
+        if self.rng.random() < 0.5:
+            self.save(k, p=p, n=n, root=root, audio=audio, fault=None)
+        self.save(k, p=p, n=n, root=root, audio=audio,
+                  fault=self.wfault(force=True))
+        if self.rng.random() < 0.5:
+            self.world(k, edit=True)
+            self.save(k, p=p, n=n, root=root, audio=audio, fault=None)
+        else:
+            self.world(1, small=True)
+            self.save(1, p=p, n=self.rng.choice([n, self.other_node(n)]),
+                      audio=self.audio_for_save(1), fault=None)
+        self.load(p)
+
     def pat_cycle(self):
         k = self.ensure_world()
         audio = self.audio_for_save(k)
@@ -1091,7 +1132,9 @@ class _Gen:
         k = self.ensure_world()
         p = self.path()
         if self.rng.random() < 0.6:
-            self.save(k, p=p, audio=None, fault=None)  # something to protect
+            # something to protect; its own save may have crashed or failed
+            self.save(k, p=p, audio=None,
+                      fault=self.wfault() if self.rng.random() < 0.4 else None)
         wrong = self.rng.choice(
             [r for r in specs.AUDIO_ROOTS] + [self.cfg_root(k) + "2"]
         )
@@ -1122,6 +1165,7 @@ PATTERNS = {
         ("pat_touch", 2),
         ("pat_two_saves", 2),
         ("pat_fault_heal", 2),
+        ("pat_crash_then_save", 2),
         ("pat_cycle", 3),
         ("pat_restart", 1),
         ("pat_relocate", 1),
@@ -1137,6 +1181,7 @@ PATTERNS = {
         ("pat_touch", 2),
         ("pat_cycle", 3),
         ("pat_fault_heal", 1),
+        ("pat_crash_then_save", 2),
         ("pat_overwrite", 1),
         ("pat_copy", 1),
         ("pat_merge", 3),
@@ -1149,6 +1194,7 @@ PATTERNS = {
         ("pat_roundtrip", 2),
         ("pat_cycle", 1),
         ("pat_fault_heal", 1),
+        ("pat_crash_then_save", 1),
         ("pat_copy", 1),
         ("pat_random", 2),
     ],
